@@ -23,18 +23,22 @@
 //     without a delimiter or in another letter case (atotal, subtotal,
 //     foo_Total, kilograms with unit g, fooSeconds) BOTH readings are accepted
 //     (suffix treated as carried, or appended).
+//
 //   - a counter whose stem ends with a delimiter (a_, a__total, a._total):
 //     "the trailing delimiter is replaced by the _ of the suffix" (a_total)
 //     and "the stem is kept" (a__total) are both accepted.
+//
 //   - a monotonic counter literally named "total": only legality, "ends with
 //     _total", the namespace prefix and the unit-word rule are asserted
 //     ([ns_]total[_unit]_total, [ns_][_unit]_total and ns[_unit]_total are all
 //     accepted); before repair 11ae005 the scrape killed the process.
+//
 //   - the family name is otherwise asserted exactly:
 //     [namespace_]stem[_unitword][_total]. Under the legacy scheme, when the
 //     instrument name needs escaping, it is compared modulo WHICH legal
 //     delimiter replaced an illegal character (validity + one-for-one
 //     replacement, not the exact escape).
+//
 //   - collision merge: the exporter documents "sorting and concatenating the
 //     values"; asserted is ONE label whose value is the ";"-join of the sorted
 //     values of the colliding keys, identical on every scrape. (The
@@ -42,18 +46,40 @@
 //     the two differ when key order and value order differ. The property
 //     statement only demands determinism, so the exporter's documented
 //     behaviour is the oracle.)
+//
 //   - instruments that may map to one family (any accepted name coincides
 //     modulo case and delimiters, or equal lower-cased instrument names),
 //     instruments that use two different key sets, and instruments two of
 //     whose attribute sets merge into the same label set are only checked for
 //     "no panic" and legal names in whatever Gather returns (soundness notes
 //     of the design: Prometheus rejects those registries by design).
+//
 //   - concurrent cases: per scrape only Gather error == nil, legal names,
 //     equal label names within a family, cumulative bucket shape and monotone
 //     counters / bucket counts (per goroutine, and against the quiescent
 //     scrape); exact values only for the quiescent scrape after all goroutines
 //     have returned (synchronous gauges written by >= 2 goroutines excepted:
 //     each reader keeps its own last value).
+//
+//   - histogram instruments aggregated as base-2 exponential histograms (by a
+//     View, so both readers see the same aggregation) must be exposed as
+//     Prometheus native histograms: schema == scale, OTel bucket index i ==
+//     Prometheus index i+1 (derived from the two bucket definitions, see
+//     native_test.go), zero count/threshold, count and sum equal to the
+//     ManualReader's data point; independently every recorded value must lie
+//     in a populated bucket of its sign and the per-sign totals must equal
+//     what was recorded. Prometheus has schemas -4..8 only: a point with a
+//     larger scale is expected at schema 8 with 2^(scale-8) neighbours merged
+//     (exact, no information invented); a point with a scale below -4 cannot
+//     be represented and nothing is asserted for it (nor is the exporter's
+//     "invalid native histogram schema" error held against it).
+//
+// Second defect found by this check and since repaired in /repo (see
+// known_findings.json, "fixed: property=C18 ... scale above 8"): the exporter
+// handed dp.Scale to NewConstNativeHistogram unchanged; for scale 9..20 (the
+// SDK's default MaxScale is 20) the constructor rejected the schema and the
+// series was missing from the scrape. Regression replay:
+// replays/regress/C18/exp_histogram_scale_above_8.json.
 //
 // Defect found by this check and since repaired in /repo (see
 // known_findings.json, "fixed: property=C18 ... ':'"): under the legacy scheme
@@ -72,11 +98,10 @@ import (
 func TestScrapeModel(t *testing.T) {
 	vk.Run(t, vk.Spec[Case]{
 		Property: "C18", Check: "scrape_model",
-		Rule: "a registry: exporter options x {UTF-8, legacy} scheme, resource, 1..2 scopes, 1..6 instruments (14 kinds) with grammar names biased to total/unit words, all table units + unknown ones, one (often colliding) key set with 1..5 tuples, exact measurements, 1..3 sequential scrapes each compared with a ManualReader on the same provider; " +
+		Rule: "a registry: exporter options x {UTF-8, legacy} scheme, resource, 1..2 scopes, 1..6 instruments (14 kinds; histograms explicit-bucket or base-2 exponential with MaxSize {160,20,4} x MaxScale {20,3,0,-2} and positive/negative/zero values) with grammar names biased to total/unit words, all table units + unknown ones, one (often colliding) key set with 1..5 tuples, exact measurements, 1..3 sequential scrapes each compared with a ManualReader on the same provider; " +
 			"non-trivial = some instrument name contains 'total' or a unit word, or attribute keys collide after sanitisation under the legacy scheme; distinct = distinct case encodings",
 		Quick: 4000, Thorough: 40000,
 		Gen: genCase(false), Run: runSeq,
-		Known: map[string]func(Case, vk.Violation) bool{"exp_histogram_scale_above_8_dropped": knownScaleAbove8},
 	})
 }
 
@@ -87,7 +112,6 @@ func TestConcurrentScrapes(t *testing.T) {
 			"non-trivial = every case (>= 2 concurrent scrapes); distinct = distinct case encodings",
 		Quick: 1200, Thorough: 12000,
 		Gen: genCase(true), Run: runConc,
-		Known:  map[string]func(Case, vk.Violation) bool{"exp_histogram_scale_above_8_dropped": knownScaleAbove8},
 		Repeat: 20,
 	})
 }
